@@ -458,10 +458,11 @@ Proof. intros H. unfold rnd. rewrite <- (round_0 radix2 (SpecFloat.fexp prec32 e
 Lemma rnd_le0 x : x <= 0 -> rnd x <= 0.
 Proof. intros H. unfold rnd. rewrite <- (round_0 radix2 (SpecFloat.fexp prec32 emax32) ZnearestE). apply round_le; [typeclasses eauto..|exact H]. Qed.
 
-Lemma round_clip_close x t D : FIN x -> Rabs (R32 x) <= 140000 -> Rabs (R32 x / 4 - t) <= D ->
-  Rabs (IZR (round_clip x x) - Rclamp (-256) 255 t) <= 1 / 2 + D + 0.0042.
+Lemma round_clip_close_gen x sx t D : FIN x -> FIN sx -> (0 <= R32 sx -> 0 <= R32 x) -> (R32 sx <= 0 -> R32 x <= 0) ->
+  Rabs (R32 x) <= 140000 -> Rabs (R32 x / 4 - t) <= D ->
+  Rabs (IZR (round_clip x sx) - Rclamp (-256) 255 t) <= 1 / 2 + D + 0.0042.
 Proof.
-  intros Fx Bx Ht. unfold round_clip.
+  intros Fx Fsx Spos Sneg Bx Ht. unfold round_clip.
   destruct R_four as [F4 E4].
   assert (Hu : 0 < u32 <= / 16777216) by (rewrite u32_val; lra). pose proof eta32_small as Heta.
   (* the division *)
@@ -472,12 +473,12 @@ Proof.
   set (q := fdiv x f_four) in *. 
   assert (Rq' : Rabs (R32 q - R32 x / 4) <= 0.0021) by (pose proof (Rabs_pos (R32 x / 4)); nra).
   (* the signed half *)
-  pose proof (sign_real x Fx) as Sx.
-  assert (Hh : exists h, FIN h /\ fmul (fsignum x) f_half = h /\ ((R32 h = 1 / 2 /\ 0 <= R32 x) \/ (R32 h = - (1 / 2) /\ R32 x <= 0))).
-  { assert (Es : fsignum x = if Bsign x then f_of_Z (-1) else f_of_Z 1) by (destruct x; try discriminate Fx; reflexivity).
-    rewrite Es. destruct (Bsign x).
-    - destruct half_neg as [F E]. eexists; split; [exact F|]. split; [reflexivity|]. right. split; assumption.
-    - destruct half_pos as [F E]. eexists; split; [exact F|]. split; [reflexivity|]. left. split; assumption. }
+  pose proof (sign_real sx Fsx) as Sx.
+  assert (Hh : exists h, FIN h /\ fmul (fsignum sx) f_half = h /\ ((R32 h = 1 / 2 /\ 0 <= R32 x) \/ (R32 h = - (1 / 2) /\ R32 x <= 0))).
+  { assert (Es : fsignum sx = if Bsign sx then f_of_Z (-1) else f_of_Z 1) by (destruct sx; try discriminate Fsx; reflexivity).
+    rewrite Es. destruct (Bsign sx).
+    - destruct half_neg as [F E]. eexists; split; [exact F|]. split; [reflexivity|]. right. split; [assumption|apply Sneg; assumption].
+    - destruct half_pos as [F E]. eexists; split; [exact F|]. split; [reflexivity|]. left. split; [assumption|apply Spos; assumption]. }
   destruct Hh as (h & Fh & Eh & Hh). rewrite Eh. clear Eh Sx.
   (* the addition *)
   pose proof (Bplus_correct prec32 emax32 _ _ mode_NE q h Fq Fh) as C.
@@ -500,6 +501,10 @@ Proof.
     rewrite Ztrunc_ceil by exact Hy. pose proof (Zceil_ub (R32 (fadd q h))). pose proof (Zceil_lb (R32 (fadd q h))).
     apply Rabs_le. lra.
 Qed.
+
+Lemma round_clip_close x t D : FIN x -> Rabs (R32 x) <= 140000 -> Rabs (R32 x / 4 - t) <= D ->
+  Rabs (IZR (round_clip x x) - Rclamp (-256) 255 t) <= 1 / 2 + D + 0.0042.
+Proof. intros Fx Bx Ht. apply round_clip_close_gen; auto. Qed.
 
 (* ---- the model's Full variant ---- *)
 Lemma nth_map_len {A B} (g : A -> B) l i d d' : (i < length l)%nat -> nth i (map g l) d = g (nth i l d').
@@ -558,4 +563,118 @@ Proof.
   { rewrite minus_IZR, Ek. apply Rabs_lt. apply Rabs_le_inv in A.
     assert (L' : Rabs (Rclamp (-256) 255 (IZR k) - Rclamp (-256) 255 t) <= 1 / 2) by lra. apply Rabs_le_inv in L'. lra. }
   rewrite <- abs_IZR in Hd. apply lt_IZR in Hd. lia.
+Qed.
+
+(* ---- the first-row / first-column shortcuts ---- *)
+Lemma fmul_rnd a b : FIN a -> FIN b -> Rabs (R32 a * R32 b) <= 1000000 -> R32 (fmul a b) = rnd (R32 a * R32 b).
+Proof.
+  intros Fa Fb HM. unfold fmul. pose proof (Bmult_correct prec32 emax32 _ _ mode_NE a b) as C.
+  rewrite (no_overflow (R32 a * R32 b)) in C by lra. destruct C as (C1 & _). exact C1.
+Qed.
+
+Lemma b00_pos : 0.7 <= bR 0 0 <= 1.
+Proof.
+  pose proof (bR_le1 0 0 ltac:(lia) ltac:(lia)) as U. pose proof (bR_ideal 0 0 ltac:(lia) ltac:(lia)) as D.
+  unfold ideal_basis in D. cbn [Z.of_nat Z.eqb Z.mul Z.add] in D. replace (0 * PI / 16) with 0 in D by (unfold Rdiv; ring). rewrite cos_0 in D.
+  assert (S : 0.707 <= / sqrt 2 <= 0.708) by (split; interval).
+  set (s2 := / sqrt 2) in *. apply Rabs_le_inv in D. apply Rabs_le_inv in U. lra.
+Qed.
+
+Section OnePass.
+  Variable G : nat -> Z.
+  Hypothesis G_range : forall f, (f < 8)%nat -> (Z.abs (G f) <= 2048)%Z.
+  Let Fz1 (r f : nat) : Z := G f.
+  Lemma Fz1_range : forall r f, (r < 8)%nat -> (f < 8)%nat -> (Z.abs (Fz1 r f) <= 2048)%Z.
+  Proof. intros r f _ Hf. apply G_range. exact Hf. Qed.
+
+  Definition line (c : nat) : f32 := dotf (fun f => f_of_Z (G f)) (fun f => basis_get f c) (seq 0 8) f_zero.
+  (* four times the exact transform of a block whose other rows (columns) are zero: the 1-D transform times C(0) *)
+  Definition ideal1 (c : nat) : R := sumf (fun f => IZR (G f) * ib f c) (seq 0 8) * ib 0 0.
+
+  Lemma line_ok c : (c < 8)%nat ->
+    FIN (line c) /\ Rabs (R32 (line c) - sumf (fun f => IZR (G f) * ib f c) (seq 0 8)) <= 0.03188 /\ Rabs (R32 (line c)) <= 16385 /\
+    Rabs (sumf (fun f => IZR (G f) * ib f c) (seq 0 8)) <= 16385.
+  Proof.
+    intros Hc. destruct (mid_ok Fz1 Fz1_range 0 c ltac:(lia) Hc) as (F & E & B & B').
+    change (mid Fz1 0 c) with (line c) in *. split; [exact F|].
+    assert (D : Rabs (S1 Fz1 0 c - sumf (fun f => IZR (G f) * ib f c) (seq 0 8)) <= 8 * (2048 * dB)).
+    { unfold S1. rewrite sumf_minus. eapply Rle_trans; [apply (sumf_abs _ (fun _ => 2048 * dB))|].
+      - intros f Hf. apply in_seq8 in Hf. unfold Fz1.
+        replace (IZR (G f) * bR f c - IZR (G f) * ib f c) with (IZR (G f) * (bR f c - ib f c)) by ring. rewrite Rabs_mult.
+        pose proof (bR_ideal f c Hf Hc) as D1. fold (ib f c) in D1. fold dB in D1.
+        assert (A : Rabs (IZR (G f)) <= 2048) by (rewrite <- abs_IZR; apply IZR_le, G_range; exact Hf).
+        pose proof (Rabs_pos (IZR (G f))). pose proof (Rabs_pos (bR f c - ib f c)). unfold dB in *. nra.
+      - rewrite sumf_const, seq_length. simpl. lra. }
+    unfold dB in D. rewrite u32_val in E.
+    apply Rabs_le_inv in E. apply Rabs_le_inv in D. apply Rabs_le_inv in B. apply Rabs_le_inv in B'.
+    split; [apply Rabs_le; lra|]. split; apply Rabs_le; lra.
+  Qed.
+
+  Lemma scaled_ok c : (c < 8)%nat ->
+    let x := fmul (line c) basis00 in
+    FIN x /\ (0 <= R32 (line c) -> 0 <= R32 x) /\ (R32 (line c) <= 0 -> R32 x <= 0) /\
+    Rabs (R32 x) <= 140000 /\ Rabs (R32 x - ideal1 c) <= 0.0511.
+  Proof.
+    intros Hc x. destruct (line_ok c Hc) as (F & E & B & Bs). pose proof b00_pos as P.
+    destruct (basis_real 0 0 ltac:(lia) ltac:(lia)) as [F0 _]. change (basis_get 0 0) with basis00 in F0.
+    assert (E00 : R32 basis00 = bR 0 0) by reflexivity.
+    assert (HM : Rabs (R32 (line c) * R32 basis00) <= 16385).
+    { rewrite Rabs_mult, E00. rewrite (Rabs_pos_eq (bR 0 0)) by lra. pose proof (Rabs_pos (R32 (line c))). nra. }
+    destruct (fmul_ok (line c) basis00 16385 F F0 HM ltac:(lra)) as [Fx Ex]. fold x in Fx, Ex.
+    pose proof (fmul_rnd (line c) basis00 F F0 ltac:(lra)) as Rx. fold x in Rx. rewrite E00 in *.
+    split; [exact Fx|]. split; [intros H; rewrite Rx; apply rnd_ge0; nra|]. split; [intros H; rewrite Rx; apply rnd_le0; nra|].
+    pose proof (bR_ideal 0 0 ltac:(lia) ltac:(lia)) as D0. fold (ib 0 0) in D0.
+    rewrite u32_val in Ex. pose proof eta32_small. unfold ideal1.
+    set (L := R32 (line c)) in *. set (S := sumf (fun f => IZR (G f) * ib f c) (seq 0 8)) in *. set (b := bR 0 0) in *. set (i0 := ib 0 0) in *.
+    apply Rabs_le_inv in E. apply Rabs_le_inv in B. apply Rabs_le_inv in Bs. apply Rabs_le_inv in Ex. apply Rabs_le_inv in D0. apply Rabs_le_inv in HM.
+    split; [apply Rabs_le; lra|].
+    replace (R32 x - S * i0) with ((R32 x - L * b) + (L - S) * b + S * (b - i0)) by ring.
+    apply Rabs_le. nra.
+  Qed.
+
+  Theorem sparse_accurate c : (c < 8)%nat ->
+    Rabs (IZR (round_clip (fmul (line c) basis00) (line c)) - Rclamp (-256) 255 (ideal1 c / 4)) <= 0.517.
+  Proof.
+    intros Hc. destruct (scaled_ok c Hc) as (Fx & Sp & Sn & Bx & Ex). destruct (line_ok c Hc) as (F & _).
+    eapply Rle_trans; [apply (round_clip_close_gen _ _ (ideal1 c / 4) 0.012775 Fx F Sp Sn Bx)|lra].
+    replace (R32 (fmul (line c) basis00) / 4 - ideal1 c / 4) with ((R32 (fmul (line c) basis00) - ideal1 c) / 4) by (unfold Rdiv; ring).
+    apply Rabs_le. apply Rabs_le_inv in Ex. lra.
+  Qed.
+End OnePass.
+
+Lemma ib_0 j : ib 0 j = ib 0 0.
+Proof. unfold ib, ideal_basis. cbn [Z.of_nat Z.eqb]. rewrite !Z.mul_0_r. reflexivity. Qed.
+
+(* the exact transform of a block whose only non-zero coefficients are in its first row / first column *)
+Lemma ideal4_first_row (G : nat -> Z) c j :
+  ideal4 (fun r f => if Nat.eqb r 0 then G f else 0%Z) c j = ideal1 G c.
+Proof.
+  unfold ideal4, ideal1. cbn [seq sumf Nat.eqb]. rewrite (ib_0 j). ring.
+Qed.
+Lemma ideal4_first_column (G : nat -> Z) c j :
+  ideal4 (fun r f => if Nat.eqb f 0 then G r else 0%Z) c j = ideal1 G j.
+Proof.
+  unfold ideal4, ideal1. cbn [seq sumf Nat.eqb]. rewrite (ib_0 c). ring.
+Qed.
+
+Lemma line_value row i : (i < 8)%nat -> nth i (idct_1d (map f_of_Z row)) f_zero = line (fun f => nth f row 0%Z) i.
+Proof.
+  intros Hi. rewrite idct_1d_nth by exact Hi. unfold line. apply dotf_ext. intros f _. split; [|reflexivity].
+  rewrite <- f_of_Z_0. apply map_nth.
+Qed.
+
+Theorem first_row_block_accurate row xo yo (j : nat) : (forall f, (f < 8)%nat -> (Z.abs (nth f row 0) <= 2048)%Z) -> (xo < 8)%nat ->
+  Rabs (IZR (idct_value_at (idct_values (DctHoriz row)) (Z.of_nat xo) yo)
+        - Rclamp (-256) 255 (ideal4 (fun r f => if Nat.eqb r 0 then nth f row 0%Z else 0%Z) xo j / 4)) <= 0.517.
+Proof.
+  intros Hr Hx. cbn [idct_values idct_value_at]. rewrite Nat2Z.id. cbv zeta. rewrite (line_value row xo Hx).
+  rewrite (ideal4_first_row (fun f => nth f row 0%Z)). apply (sparse_accurate _ Hr xo Hx).
+Qed.
+
+Theorem first_column_block_accurate col xo yo (c : nat) : (forall f, (f < 8)%nat -> (Z.abs (nth f col 0) <= 2048)%Z) -> (yo < 8)%nat ->
+  Rabs (IZR (idct_value_at (idct_values (DctVert col)) xo (Z.of_nat yo))
+        - Rclamp (-256) 255 (ideal4 (fun r f => if Nat.eqb f 0 then nth r col 0%Z else 0%Z) c yo / 4)) <= 0.517.
+Proof.
+  intros Hr Hy. cbn [idct_values idct_value_at]. rewrite Nat2Z.id. cbv zeta. rewrite (line_value col yo Hy).
+  rewrite (ideal4_first_column (fun f => nth f col 0%Z)). apply (sparse_accurate _ Hr yo Hy).
 Qed.
